@@ -8,7 +8,7 @@ import re
 from ..core import Checker, Rule, attr_calls, callee_is, calls_in, kwarg, resolved_calls, short
 from ..grammar import schema
 from ..interp import Pins, find_nodes, unparse
-from .util import effect_table, enclosing_loop, enclosing_stmt, enum_members, every_iteration_reaches, fmt, is_const, parent, returns_of, self_attr_for_param, single_def
+from .util import ancestors, effect_table, enclosing_loop, enclosing_stmt, enum_members, every_iteration_reaches, fmt, is_const, parent, returns_of, self_attr_for_param, single_def
 
 P = ("C15", "C01")
 PG = ("C15", "C02", "C01")
@@ -58,8 +58,10 @@ def r_rule_dependency(ck: Checker) -> None:
     func = ck.func("dependency:RuleDependency.__init__")
     it = ck.interp(func)
     apps = [c for c in attr_calls(func, "append") if unparse(c.func.value).startswith("self.pred2stm[")]  # type: ignore[attr-defined]
-    ck.need(len(apps) == 1, "uses are registered at one site (self.pred2stm[pred].append(stm))")
-    app = apps[0]
+    ck.need(len(apps) >= 1, "uses are registered (self.pred2stm[pred].append(stm))")
+    main = [a for a in apps if (lp := enclosing_loop(func, a)) is not None and "body_predicates(" in unparse(lp.iter)]
+    ck.need(len(main) == 1, "uses in rules and objectives are registered at one site")
+    app = main[0]
     loop = enclosing_loop(func, app)
     ck.need(loop is not None, "registration loop")
     stm = unparse(app.args[0])
@@ -78,6 +80,8 @@ def r_rule_dependency(ck: Checker) -> None:
     sch = schema()
     bp, mp = ck.func("utils.ast:body_predicates"), ck.func("utils.ast:minimize_predicates")
     need = sorted(k for k in sch.nonterminals["statement"] if sch.field(k, "body") is not None and k != "ShowTerm")
+    outer = [lp for lp in find_nodes(func.node, lambda n: isinstance(n, ast.For)) if enclosing_loop(func, lp) is None and any(a is x for a in apps for x in ast.walk(lp))]
+    ck.need(len(outer) == 1, "one loop over the statements of the program")
     for kind in need:
         hit = False
         for f in (bp, mp):
@@ -85,8 +89,28 @@ def r_rule_dependency(ck: Checker) -> None:
             itk = ck.interp(f, Pins.of(vals={f"{p0}.ast_type": f"ASTType.{kind}"}))
             ys = [n for n in find_nodes(f.node, lambda n: isinstance(n, ast.YieldFrom)) if itk.reachable(n)]
             hit = hit or bool(ys)
-        ck.add(f"uses in the body of {kind} statements are counted", hit, bp, bp.node, f"body_predicates/minimize_predicates yield for {kind}: {hit}",
+        where = "body_predicates/minimize_predicates yield"
+        if not hit:
+            # registered by RuleDependency itself: an append reachable for this kind inside a loop over the statement's body
+            itk = ck.interp(func, Pins.of(vals={f"{stm}.ast_type": f"ASTType.{kind}"}))
+            for a in apps:
+                if a is app or not itk.reachable(a):
+                    continue
+                lps = [x for x in ancestors(func, a) if isinstance(x, ast.For) and x is not outer[0]]
+                if lps and unparse(lps[-1].iter) == f"{stm}.body" and unparse(a.args[0]) == stm:
+                    hit = True
+                    where = "RuleDependency registers the literals of the body"
+        ck.add(f"uses in the body of {kind} statements are counted", hit, func, outer[0], f"{where} for {kind}: {hit}",
                "A6: a use in a directive body (#external, #edge, #heuristic, #project) is not rewritten by inline, so the definition must not be deleted", rule="C15.A6.uses")
+    single = ck.func(f"{CLS}.is_single")
+    its = ck.interp(single)
+    users = [n for n in find_nodes(single.node, lambda n: isinstance(n, (ast.Assign, ast.AnnAssign))) if "get_statements_that_use(" in unparse(n.value or ast.Constant(None))]  # type: ignore[attr-defined]
+    ck.need(len(users) == 1, "is_single looks the users up once")
+    u = unparse(users[0].targets[0] if isinstance(users[0], ast.Assign) else users[0].target)  # type: ignore[attr-defined]
+    good = [r for r in returns_of(single) if r.value is not None and not is_const(r.value, None) and its.reachable(r)]
+    ck.need(len(good) >= 1, "is_single has a positive return")
+    for r in good:
+        ck.guard("the single user is a rule or an objective", single, r, f"{u}[0].ast_type in (ASTType.Rule, ASTType.Minimize)", "nothing can be unfolded into a directive: a helper used only there must stay")
 
 
 def r_good_table(ck: Checker) -> None:
